@@ -166,6 +166,13 @@ func runSelfTest(repo, verif, prop, tier string, rules []*Rule, base []Obligatio
 			ms = append(ms, Mutant{ID: "seeded/" + filepath.Base(d), Rule: "*", Props: []string{prop}, Patch: filepath.Join(d, "patch.diff"), Expect: "fire", Quick: true})
 		}
 	}
+	// behaviour-preserving refactorings kept under neutral/: no rule of any property may fire on them (thorough tier)
+	if dirs, err := filepath.Glob(filepath.Join(verif, "neutral", "*", "patch.diff")); err == nil {
+		sort.Strings(dirs)
+		for _, pf := range dirs {
+			ms = append(ms, Mutant{ID: "neutral/" + filepath.Base(filepath.Dir(pf)), Rule: "*", Patch: pf, Expect: "silent", Quick: false})
+		}
+	}
 	var sel []Mutant
 	for _, m := range ms {
 		if m.Rule != "*" && !inProp[m.Rule] {
@@ -229,12 +236,20 @@ func runSelfTest(repo, verif, prop, tier string, rules []*Rule, base []Obligatio
 				return
 			}
 			var fresh []string
+			panicked := ""
 			for _, o := range r.Obs {
 				if o.Status != Discharged && !baseBad[o.Rule+"\x00"+o.Key] {
+					if strings.HasPrefix(o.Key, "rule-panic") {
+						panicked = o.Rule + ": " + o.Detail
+						continue
+					}
 					fresh = append(fresh, o.Key)
 				}
 			}
 			switch {
+			case panicked != "" && len(fresh) == 0:
+				// a crash of the checker is not a detection (and not silence either)
+				outs[i] = out{m.ID, "skipped", "CHECKER PANIC " + panicked}
 			case m.Expect == "fire" && len(fresh) > 0:
 				outs[i] = out{m.ID, "ok", "fired: " + freshRule(r.Obs, baseBad) + " " + fresh[0]}
 			case m.Expect == "fire":
